@@ -261,6 +261,7 @@ macro_rules! c14_float {
                 let r = sweep(1 << 18, move |i| {
                     let n: u32 = $n;
                     let fb = structured_f64(mix(i ^ seed) );
+                    witness(fb);
                     let f = f64::from_bits(fb);
                     let r64 = $PX::<$n>::from_f64(f).to_bits();
                     let g = f as f32;
@@ -269,7 +270,7 @@ macro_rules! c14_float {
                     (ok, fb << 1 != 0)
                 });
                 total.0 += r.0 * 2; total.1 += r.1;
-                total.2.extend(r.2.iter().map(|x| x | (($n as u64) << 32)));
+                total.2.extend(r.2.iter().cloned()); // witnesses are the f64 bit patterns themselves
             )*
             total
         }
@@ -279,11 +280,11 @@ c14_float!(c14_float_e2, PxE2, 2, [2, 3, 4, 5, 8, 12, 16, 20, 24, 28, 31, 32]);
 c14_float!(c14_float_e1, PxE1, 1, [2, 3, 4, 5, 8, 12, 16, 20, 24, 28, 31, 32]);
 // @n name=c14_from_float_e2_bounded props=C14 fn=PxE2<N>::from_f64,PxE2<N>::from_f32 tier=quick t=1200 mode=B kf=D18
 fn c14_from_float_e2_bounded(seed: u64) {
-    report("c14_from_float_e2_bounded", "B", c14_float_e2(seed), &["failing sweep index | N << 32; input = structured_f64(mix(i ^ seed))".to_string()]);
+    report("c14_from_float_e2_bounded", "B", c14_float_e2(seed), &["failures list the f64 bit patterns fed to from_f64 (and, narrowed with `as f32`, to from_f32) for some width N of the sweep".to_string()]);
 }
 // @n name=c14_from_float_e1_bounded props=C14 fn=PxE1<N>::from_f64,PxE1<N>::from_f32 tier=quick t=1200 mode=B kf=D18
 fn c14_from_float_e1_bounded(seed: u64) {
-    report("c14_from_float_e1_bounded", "B", c14_float_e1(seed), &["failing sweep index | N << 32; input = structured_f64(mix(i ^ seed))".to_string()]);
+    report("c14_from_float_e1_bounded", "B", c14_float_e1(seed), &["failures list the f64 bit patterns fed to from_f64 (and, narrowed with `as f32`, to from_f32) for some width N of the sweep".to_string()]);
 }
 
 fn run(name: &str, _seed: u64) -> bool {
